@@ -39,9 +39,9 @@ package redisemu
 //@ ensures [C19] dirty.mono: old(dsc.ds.data.dirty) ==> dsc.ds.data.dirty
 //@ ensures [C17] start: scanStarted ==> scanFirst == reverse32((cursor & (uint32(1)<<uint(kk) - 1)) << uint(32-kk))
 //@ ensures [C17] resume: scanStarted ==> scanCursor == reverse32(scanNext << uint(32-kk)) && scanNext > scanFirst && scanNext <= uint32(1)<<uint(kk)
-//@ loop 1 invariant held && (old(lookupAbsent) ==> lookupAbsent) && (old(dsc.ds.data.dirty) ==> dsc.ds.data.dirty)
-//@ loop 1 invariant [C17] order: scanStarted ==> cursor == reverse32(scanNext << uint(32-kk)) && scanCursor == cursor && scanNext < uint32(1)<<uint(kk) && scanNext > scanFirst
-//@ loop 1 invariant [C17] first: !scanStarted ==> cursor == old(cursor) & (uint32(1)<<uint(kk) - 1)
-//@ loop 1 invariant [C17] startfix: scanStarted ==> scanFirst == reverse32((old(cursor) & (uint32(1)<<uint(kk) - 1)) << uint(32-kk))
-//@ loop 2 invariant [C17] skip: index < nextCursor && nextCursor <= highBit && all(j, int(index)+1, int(nextCursor), data.buckets[j] == nil)
-//@ loop 2 invariant held && scanStarted && (old(lookupAbsent) ==> lookupAbsent) && (old(dsc.ds.data.dirty) ==> dsc.ds.data.dirty)
+//@ loop "for count > 0" invariant held && (old(lookupAbsent) ==> lookupAbsent) && (old(dsc.ds.data.dirty) ==> dsc.ds.data.dirty)
+//@ loop "for count > 0" invariant [C17] order: scanStarted ==> cursor == reverse32(scanNext << uint(32-kk)) && scanCursor == cursor && scanNext < uint32(1)<<uint(kk) && scanNext > scanFirst
+//@ loop "for count > 0" invariant [C17] first: !scanStarted ==> cursor == old(cursor) & (uint32(1)<<uint(kk) - 1)
+//@ loop "for count > 0" invariant [C17] startfix: scanStarted ==> scanFirst == reverse32((old(cursor) & (uint32(1)<<uint(kk) - 1)) << uint(32-kk))
+//@ loop "for nextCursor < highBit" invariant [C17] skip: index < nextCursor && nextCursor <= highBit && all(j, int(index)+1, int(nextCursor), data.buckets[j] == nil)
+//@ loop "for nextCursor < highBit" invariant held && scanStarted && (old(lookupAbsent) ==> lookupAbsent) && (old(dsc.ds.data.dirty) ==> dsc.ds.data.dirty)
